@@ -1,19 +1,35 @@
 /- GENERATED: instance obligations for one logic, discharged by kernel evaluation.
-   `X ⊆ known`: every failing row is a committed known finding (Ptx/Gen/Known.lean). -/
+   `S` = the logic with its DOCUMENTED tables (Ptx/Sem/Spec.lean); rules, closure, trunk and frames
+   are what the translator read off the code.  `X ⊆ known`: every failing row is a committed
+   known finding (Ptx/Gen/Known.lean, generated from known_findings.json). -/
 import Ptx.Gen.L_TRM3
 import Ptx.Gen.Known
 import Ptx.Sem.Subset
+import Ptx.Props.C01
+import Ptx.Gen.L_RM3
 namespace Ptx.Gen.Obl.TRM3
 open Ptx
 
-theorem tables_total : Gen.TRM3.tablesTotalB = true := by decide +kernel
-theorem rules_exact : subsetB Gen.TRM3.badRules (Known.badRules "TRM3") = true := by decide +kernel
-theorem rules_sound : subsetB Gen.TRM3.unsoundRules (Known.unsoundRules "TRM3") = true := by decide +kernel
-theorem rules_total : subsetB Gen.TRM3.missingRules (Known.missingRules "TRM3") = true := by decide +kernel
-theorem rules_local : Gen.TRM3.nonLocalRules = [] := by decide +kernel
-theorem closure_total : Gen.TRM3.closureTotalB = true := by decide +kernel
-theorem closure_exact : subsetB Gen.TRM3.badClosure (Known.badClosure "TRM3") = true := by decide +kernel
-theorem read_total : Gen.TRM3.readTotalB = true := by decide +kernel
-theorem read_exact : subsetB Gen.TRM3.badRead (Known.badRead "TRM3") = true := by decide +kernel
+/-- a modal / first-order extension has exactly the truth-functional tables of its base (RM3) -/
+theorem base_tables : Gen.TRM3.tables.sameTF Gen.RM3.tables = true := by decide +kernel
+theorem spec_defined : Gen.TRM3.specDefinedB = true := by decide +kernel
+theorem tables_spec : subsetB Gen.TRM3.tableDiff (Known.tableDiff "TRM3") = true := by decide +kernel
+theorem defined_ops : Gen.TRM3.tables.definedOpsBad = [] := by decide +kernel
+theorem tables_total : Gen.TRM3.sem.tablesTotalB = true := by decide +kernel
+theorem rules_exact : subsetB Gen.TRM3.sem.badRules (Known.badRules "TRM3") = true := by decide +kernel
+theorem rules_sound : subsetB Gen.TRM3.sem.unsoundRules (Known.unsoundRules "TRM3") = true := by decide +kernel
+theorem rules_total : subsetB Gen.TRM3.sem.missingRules (Known.missingRules "TRM3") = true := by decide +kernel
+theorem rules_local : Gen.TRM3.sem.nonLocalRules = [] := by decide +kernel
+theorem closure_total : Gen.TRM3.sem.closureTotalB = true := by decide +kernel
+theorem closure_exact : subsetB Gen.TRM3.sem.badClosure (Known.badClosure "TRM3") = true := by decide +kernel
+theorem read_total : Gen.TRM3.sem.readTotalB = true := by decide +kernel
+theorem read_exact : subsetB Gen.TRM3.sem.badRead (Known.badRead "TRM3") = true := by decide +kernel
+theorem sound_core : Gen.TRM3.sem.soundCoreB = true := by decide +kernel
+
+/-- C01 for this logic: a closed tableau reached by any legal derivation has no countermodel. -/
+theorem c01_valid_sound (arg : Argument) (t : Tableau)
+    (hd : Deriv Gen.TRM3.sem.soundPart.noQuantPart (trunk Gen.TRM3.sem arg) t) (hclosed : t.allClosed = true)
+    (M : Struct) (hM : M.Interp Gen.TRM3.sem) (e : Env M.D) (w0 : M.W) : ¬ Countermodel Gen.TRM3.sem M e w0 arg :=
+  Props.C01.C01_valid_sound_partial Gen.TRM3.sem sound_core arg t hd hclosed M hM e w0
 
 end Ptx.Gen.Obl.TRM3
